@@ -120,11 +120,11 @@ def install(events, spec):
     def add_assertions(self, test_cases):
         # observation + filtering executions (not the mutant executions of MUTATION_ANALYSIS): a timed-out filtering execution
         # keeps all unverified assertions, the checks need to know
-        before = genfile_breaks.LOG_COUNTS["timeouts"]
+        before = genfile_breaks.LOG_COUNTS["executor_warnings"]
         try:
             return orig_add(self, test_cases)
         finally:
-            genfile_breaks.LOG_COUNTS["timeouts_during_assertion_generation"] += genfile_breaks.LOG_COUNTS["timeouts"] - before
+            genfile_breaks.LOG_COUNTS["timeouts_during_assertion_generation"] += genfile_breaks.LOG_COUNTS["executor_warnings"] - before
 
     ag.AssertionGenerator._add_assertions = add_assertions
     gen._generate_assertions = generate_assertions
